@@ -9,3 +9,4 @@ INVARIANT C14_Balanced
 INVARIANT C15_NoRetention
 INVARIANT C15_FollowFresh
 CHECK_DEADLOCK FALSE
+INVARIANT EmitScenario
